@@ -232,6 +232,284 @@ Proof.
     unfold solid. rewrite Edir, Edev, Eln. rewrite andb_false_r. simpl. discriminate.
 Qed.
 
+
+Definition tmpfree (g : fs) : Prop := forall dd, rwalk f D pre = Some dd -> blookup tmp (ents g dd) = None.
+
+(* what a successful HandleChange leaves behind *)
+Definition post (r : fs * dwres) : Prop :=
+  step Tp b f (fst r) /\
+  forall a nd, snd r = DwOk a nd ->
+    tmpfree (fst r)
+    /\ (solid st = true -> safe (fst r) D (pre ++ [bn]))
+    /\ (a = true -> exists dd i, rwalk f D pre = Some dd /\ blookup bn (ents (fst r) dd) = Some i /\ b <= i).
+
+Lemma post_err g : step Tp b f g -> post (g, DwErr).
+Proof. intros S. split; auto. intros a nd H. discriminate. Qed.
+
+Lemma is_dir_not_link g i : is_dir g i = true -> is_link g i = false.
+Proof.
+  intros H. apply is_dir_dir_of in H. destruct H as (q & es & H). apply dir_of_tag in H.
+  destruct (is_link g i) eqn:E; auto. apply is_link_tag in E. congruence.
+Qed.
+
+Lemma safe_snoc g nm : safe g D pre ->
+  (forall dd i, rwalk g D pre = Some dd -> blookup nm (ents g dd) = Some i -> is_link g i = false) ->
+  safe g D (pre ++ [nm]).
+Proof.
+  intros Hs H. apply safe_app. split; auto. intros j Hj. apply safe_unfold.
+  destruct (blookup nm (ents g j)) as [i|] eqn:Eb; auto. split; [|exact I]. apply (H j i); auto.
+Qed.
+
+(* ---- delete ---- *)
+Lemma dw_delete_spec :
+  let f1 := fst (sys_remove_all c f p) in step Tp b f f1 /\ tmpfree f1.
+Proof.
+  assert (Hb : b <= f_next f) by (unfold b; lia).
+  destruct (sys_remove_all_step D (Tn bn) b c f p pre bn W Hb Hc Hp Hsafe (mid_names f bn mid_refl)) as [S _].
+  cbv zeta. split; [apply (step_weaken D (Tn bn) Tp); auto; apply Tn_Tp; auto|].
+  intros dd Hw. rewrite (mid_dent f _ (Tn bn) dd tmp mid_refl S Hw (not_Tn bn tmp dd (not_eq_sym Hne))).
+  apply Hfree. exact Hw.
+Qed.
+
+(* ---- directory over directory: metadata in place ---- *)
+Lemma dw_inplace_spec dd oi :
+  rwalk f D pre = Some dd -> blookup bn (ents f dd) = Some oi -> is_dir f oi = true ->
+  let f1 := fst (rewrite_meta c f p st) in
+  step Tp b f f1 /\ tmpfree f1 /\ safe f1 D (pre ++ [bn]).
+Proof.
+  intros Hw Hbl Hdo. cbv zeta.
+  assert (Hb : b <= f_next f) by (unfold b; lia).
+  assert (Hfull : safe f D (pre ++ [bn])).
+  { apply safe_snoc; auto. intros dd' i' Hw' Hb'. rewrite Hw in Hw'. inversion Hw'; subst dd'.
+    rewrite Hbl in Hb'. inversion Hb'; subst i'. apply is_dir_not_link. exact Hdo. }
+  assert (M : meta_pre b pre bn st f).
+  { unfold meta_pre. split; [exact W|]. split; [exact Hb|]. split; [exact Hsafe|]. split; [|intros _; exact Hfull].
+    intros dd' i' Hw' Hb'. rewrite Hw in Hw'. inversion Hw'; subst dd'.
+    rewrite Hbl in Hb'. inversion Hb'; subst i'. right. exact Hdo. }
+  pose proof (rewrite_meta_step b c p pre bn st Hc Hp f M) as S.
+  split; [apply (step_weaken D TNone Tp); auto; apply TNone_Tp|]. split.
+  - intros dd' Hw'. rewrite (mid_dent f _ TNone dd' tmp mid_refl S Hw') by (unfold TNone; tauto). apply Hfree. exact Hw'.
+  - apply (quiet_safe D b f); auto.
+Qed.
+
+(* ---- metadata of what the creation switch made ---- *)
+Lemma dw_meta_spec q nm f1 mk dd i :
+  relpath q (pre ++ [nm]) -> mid f1 -> rwalk f D pre = Some dd -> blookup nm (ents f1 dd) = Some i ->
+  (mk <> MHardlink -> b <= i /\ (mode_is_symlink (st_mode st) = false -> is_link f1 i = false)) ->
+  step TNone b f1 (fst (dw_meta c f1 q st mk)).
+Proof.
+  intros Hq M Hw Hbl Hmk. unfold dw_meta.
+  destruct mk; try (apply step_refl; [apply M|apply M]).
+  - assert (P : meta_pre b pre nm st f1).
+    { destruct (Hmk ltac:(discriminate)) as [Hbi Hl].
+      split; [apply M|]. split; [apply M|]. split; [apply M|]. split.
+      - intros dd' i' Hw' Hb'. rewrite (mid_walk f1 M), Hw in Hw'. inversion Hw'; subst dd'.
+        rewrite Hbl in Hb'. inversion Hb'; subst i'. left. exact Hbi.
+      - intros Hm. apply safe_snoc; [apply M|]. intros dd' i' Hw' Hb'.
+        rewrite (mid_walk f1 M), Hw in Hw'. inversion Hw'; subst dd'.
+        rewrite Hbl in Hb'. inversion Hb'; subst i'. auto. }
+    apply (rewrite_meta_step b c q pre nm st Hc Hq f1 P).
+  - assert (P : meta_pre b pre nm st f1).
+    { destruct (Hmk ltac:(discriminate)) as [Hbi Hl].
+      split; [apply M|]. split; [apply M|]. split; [apply M|]. split.
+      - intros dd' i' Hw' Hb'. rewrite (mid_walk f1 M), Hw in Hw'. inversion Hw'; subst dd'.
+        rewrite Hbl in Hb'. inversion Hb'; subst i'. left. exact Hbi.
+      - intros Hm. apply safe_snoc; [apply M|]. intros dd' i' Hw' Hb'.
+        rewrite (mid_walk f1 M), Hw in Hw'. inversion Hw'; subst dd'.
+        rewrite Hbl in Hb'. inversion Hb'; subst i'. auto. }
+    apply (rewrite_meta_step b c q pre nm st Hc Hq f1 P).
+Qed.
+
+(* ---- no entry yet: create in place ---- *)
+Lemma dw_direct_spec : snd (sys_lstat c f p) = RErr ENOENT ->
+  post (match dw_create c f p st with
+        | (f1, false, _) => (f1, DwErr)
+        | (f1, true, mk) =>
+          let reg := made_regular mk in
+          let (f2, ok) := dw_meta c f1 p st mk in
+          if negb ok then (f2, DwErr) else (f2, DwOk reg (mode_is_dir (st_mode st) && negb reg))
+        end).
+Proof.
+  intros Hl.
+  pose proof (dw_create_spec p bn Hp (or_introl eq_refl)
+                (lstat_enoent_dangling D c f p pre bn Hc Hp Hsafe Hl)) as C. cbv zeta in C.
+  destruct (dw_create c f p st) as [[f1 ok] mk]. cbn [fst snd] in C. destruct C as [S1 P1].
+  assert (S1' : step Tp b f f1) by (apply (step_weaken D (Tn bn) Tp); auto; apply Tn_Tp; auto).
+  destruct ok; [|apply post_err; auto].
+  destruct (P1 eq_refl) as (dd & i & Hw & Hd & Hbl & Hmk & Hsol & Hreg).
+  pose proof (mid_of_step f1 S1') as M1.
+  pose proof (dw_meta_spec p bn f1 mk dd i Hp M1 Hw Hbl (fun H => let (A, B) := Hmk H in conj A (proj1 B))) as S2.
+  cbv zeta. destruct (dw_meta c f1 p st mk) as [f2 ok2]. cbn [fst] in S2.
+  pose proof (mid_next f1 f2 TNone M1 TNone_Tp S2) as M2.
+  destruct ok2; cbn [negb]; [|apply post_err; apply M2].
+  assert (Hbl2 : blookup bn (ents f2 dd) = Some i).
+  { rewrite (mid_dent f1 f2 TNone dd bn M1 S2 Hw) by (unfold TNone; tauto). exact Hbl. }
+  split; [apply M2|]. intros a nd Hres. cbn [fst snd] in *. inversion Hres; subst a nd. split; [|split].
+  - intros dd' Hw'.
+    rewrite (mid_dent f1 f2 TNone dd' tmp M1 S2 Hw') by (unfold TNone; tauto).
+    rewrite (mid_dent f f1 (Tn bn) dd' tmp mid_refl S1 Hw' (not_Tn bn tmp dd' (not_eq_sym Hne))).
+    apply Hfree. exact Hw'.
+  - intros Hs. apply safe_snoc; [apply M2|]. intros dd' i' Hw' Hb'.
+    rewrite (mid_walk f2 M2), Hw in Hw'. inversion Hw'; subst dd'. rewrite Hbl2 in Hb'. inversion Hb'; subst i'.
+    destruct (Hmk (Hsol Hs)) as (_ & _ & Hl3).
+    rewrite (is_link_step D TNone b f1 f2 i S2).
+    + apply Hl3. exact Hs.
+    + destruct (dentry_reach D f1 pre dd bn i) as [_ Ri]; auto; [rewrite (mid_walk f1 M1); auto|].
+      apply (reach_lt D f1 i (mid_wf f1 M1) Ri).
+  - intros Ha. exists dd, i. repeat split; auto. apply Hreg. destruct mk; try discriminate; reflexivity.
+Qed.
+
+
+Lemma T2_Tp dd : rwalk f D pre = Some dd -> is_dir f dd = true -> forall d m, T2 dd tmp bn d m -> Tp d m.
+Proof. intros Hw Hd d m [-> H]. split; auto. split; auto. tauto. Qed.
+
+Lemma islink_next g g' (T' : N -> bytes -> Prop) dd nm i : mid g -> step T' b g g' ->
+  rwalk f D pre = Some dd -> blookup nm (ents g dd) = Some i -> is_link g' i = is_link g i.
+Proof.
+  intros M S Hw Hbl. apply (is_link_step D T' b g g' i S).
+  destruct (dentry_reach D g pre dd nm i) as [_ Ri]; auto; [rewrite (mid_walk g M); auto|].
+  apply (reach_lt D g i (mid_wf g M) Ri).
+Qed.
+
+(* ---- an entry exists and is not handled in place: make the new one next to it, swap ---- *)
+Lemma dw_replace_spec dd oi ond (xdir ndir : bool) :
+  rwalk f D pre = Some dd -> is_dir f dd = true -> blookup bn (ents f dd) = Some oi -> get f oi = Some ond ->
+  post (match dw_create c f (tmp_path p tmp) st with
+        | (f1, false, _) => (f1, DwErr)
+        | (f1, true, mk) =>
+          let reg := made_regular mk in
+          let (f2, ok) := dw_meta c f1 (tmp_path p tmp) st mk in
+          if negb ok then (f2, DwErr) else
+          let (f3, r3) := if xdir then sys_remove_all c f2 p else (f2, ROk) in
+          if is_err r3 then (f3, DwErr) else
+          let same := match stat_ino (snd (sys_lstat c f3 (tmp_path p tmp))) with
+                      | Some ni => N.eqb ni oi | None => false end in
+          let (f4, r4) := if same then sys_unlink c f3 (tmp_path p tmp) else sys_rename c f3 (tmp_path p tmp) p in
+          if is_err r4 then (f4, DwErr) else (f4, DwOk reg (ndir && negb reg))
+        end).
+Proof.
+  intros Hw Hd Hbn Hgo. set (np := tmp_path p tmp) in *.
+  assert (Hoi : oi < b).
+  { destruct (dentry_reach D f pre dd bn oi Hw Hbn) as [_ R]. apply (reach_lt D f oi W R). }
+  assert (Habs : forall dd' i, rwalk f D pre = Some dd' -> blookup tmp (ents f dd') = Some i -> get f i = None).
+  { intros dd' i Hw' Hb'. rewrite (Hfree dd' Hw') in Hb'. discriminate. }
+  pose proof (dw_create_spec np tmp Hnp (or_intror eq_refl) Habs) as C. cbv zeta in C.
+  destruct (dw_create c f np st) as [[f1 ok] mk]. cbn [fst snd] in C. destruct C as [S1 P1].
+  assert (S1' : step Tp b f f1) by (apply (step_weaken D (Tn tmp) Tp); auto; apply Tn_Tp; auto).
+  destruct ok; [|apply post_err; auto].
+  destruct (P1 eq_refl) as (dd1 & i & Hw1 & _ & Hbl1 & Hmk & Hsol & Hreg).
+  rewrite Hw in Hw1. inversion Hw1; subst dd1. clear Hw1.
+  pose proof (mid_of_step f1 S1') as M1.
+  assert (Hbn1 : blookup bn (ents f1 dd) = Some oi).
+  { rewrite (mid_dent f f1 (Tn tmp) dd bn mid_refl S1 Hw (not_Tn tmp bn dd Hne)). exact Hbn. }
+  pose proof (dw_meta_spec np tmp f1 mk dd i Hnp M1 Hw Hbl1 (fun H => let (A, B) := Hmk H in conj A (proj1 B))) as S2.
+  cbv zeta. destruct (dw_meta c f1 np st mk) as [f2 ok2]. cbn [fst] in S2.
+  pose proof (mid_next f1 f2 TNone M1 TNone_Tp S2) as M2.
+  destruct ok2; cbn [negb]; [|apply post_err; apply M2].
+  assert (Hbl2 : blookup tmp (ents f2 dd) = Some i).
+  { rewrite (mid_dent f1 f2 TNone dd tmp M1 S2 Hw) by (unfold TNone; tauto). exact Hbl1. }
+  assert (Hbn2 : blookup bn (ents f2 dd) = Some oi).
+  { rewrite (mid_dent f1 f2 TNone dd bn M1 S2 Hw) by (unfold TNone; tauto). exact Hbn1. }
+  (* the optional RemoveAll *)
+  assert (X : exists f3 r3, (if xdir then sys_remove_all c f2 p else (f2, ROk)) = (f3, r3)
+            /\ step (Tn bn) b f2 f3
+            /\ (blookup bn (ents f3 dd) = Some oi \/ blookup bn (ents f3 dd) = None)).
+  { destruct xdir.
+    - destruct (sys_remove_all_step D (Tn bn) b c f2 p pre bn (mid_wf f2 M2) (mid_b f2 M2) Hc Hp (mid_safe f2 M2)
+                  (mid_names f2 bn M2)) as [S3 Q3].
+      destruct (sys_remove_all c f2 p) as [f3 r3]. cbn [fst] in *. exists f3, r3. split; auto. split; auto.
+      destruct Q3 as [->|Q3]; [left; exact Hbn2|right]. apply Q3. rewrite (mid_walk f2 M2). exact Hw.
+    - exists f2, ROk. split; auto. split; [apply step_refl; [apply M2|apply M2]|left; exact Hbn2]. }
+  destruct X as (f3 & r3 & E3 & S3 & Hbn3). rewrite E3.
+  pose proof (mid_next f2 f3 (Tn bn) M2 (Tn_Tp bn (or_introl eq_refl)) S3) as M3.
+  destruct (is_err r3); [apply post_err; apply M3|].
+  assert (Hbl3 : blookup tmp (ents f3 dd) = Some i).
+  { rewrite (mid_dent f2 f3 (Tn bn) dd tmp M2 S3 Hw (not_Tn bn tmp dd (not_eq_sym Hne))). exact Hbl2. }
+  assert (Hw3 : rwalk f3 D pre = Some dd) by (rewrite (mid_walk f3 M3); exact Hw).
+  assert (Hl13 : is_link f3 i = is_link f1 i).
+  { rewrite (islink_next f2 f3 (Tn bn) dd tmp i M2 S3 Hw Hbl2). apply (islink_next f1 f2 TNone dd tmp i M1 S2 Hw Hbl1). }
+  destruct (match stat_ino (snd (sys_lstat c f3 np)) with Some ni => N.eqb ni oi | None => false end) eqn:Esame.
+  - (* the old entry already names the inode of the new one: drop the temporary name *)
+    assert (Eio : i = oi).
+    { destruct (snd (sys_lstat c f3 np)) as [| |ni nd| | |] eqn:El; simpl in Esame; try discriminate.
+      apply N.eqb_eq in Esame. subst ni.
+      destruct (lstat_stat D c f3 np pre tmp Hc Hnp (mid_safe f3 M3) oi nd El) as (dd3 & A1 & _ & A2 & _).
+      rewrite Hw3 in A1. inversion A1; subst dd3. rewrite Hbl3 in A2. inversion A2. reflexivity. }
+    destruct (sys_unlink_step D (Tn tmp) b c f3 np pre tmp (mid_wf f3 M3) (mid_b f3 M3) Hc Hnp (mid_safe f3 M3)
+                (mid_names f3 tmp M3)) as [S4 Q4].
+    destruct (sys_unlink c f3 np) as [f4 r4]. cbn [fst snd] in *.
+    pose proof (mid_next f3 f4 (Tn tmp) M3 (Tn_Tp tmp (or_intror eq_refl)) S4) as M4.
+    destruct (is_err r4) eqn:Er4; [apply post_err; apply M4|].
+    split; [apply M4|]. intros a nd Hres. cbn [fst snd] in *. inversion Hres; subst a nd. split; [|split].
+    + intros dd' Hw'. apply (Q4 Er4). rewrite (mid_walk f3 M3). exact Hw'.
+    + intros Hs. exfalso. destruct (Hmk (Hsol Hs)) as (Hbi & _). lia.
+    + intros Ha. exfalso. assert (Hbi : b <= i) by (apply Hreg; destruct mk; try discriminate; reflexivity). lia.
+  - (* rename the new entry over the old one *)
+    destruct (sys_rename_step D b c f3 np p pre tmp bn (mid_wf f3 M3) (mid_b f3 M3) Hc Hnp Hp (mid_safe f3 M3) Hne dd Hw3)
+      as [S4 Q4].
+    destruct (sys_rename c f3 np p) as [f4 r4]. cbn [fst snd] in *.
+    pose proof (mid_next f3 f4 (T2 dd tmp bn) M3 (T2_Tp dd Hw Hd) S4) as M4.
+    destruct (is_err r4) eqn:Er4; [apply post_err; apply M4|].
+    destruct (Q4 Er4) as (i' & B1 & B2 & B3 & B4). rewrite Hbl3 in B1. inversion B1; subst i'. clear B1.
+    assert (Hio : i <> oi).
+    { intro E. subst oi. pose proof (lstat_of_resolve c f3 np tmp dd i B4) as L.
+      change (stat_ino_of (snd (sys_lstat c f3 np))) with (stat_ino (snd (sys_lstat c f3 np))) in L.
+      rewrite L in Esame. destruct (get f3 i) eqn:Eg.
+      - rewrite N.eqb_refl in Esame. discriminate.
+      - pose proof (st_tag _ _ _ _ _ (mid_step f3 M3) i Hoi) as Ht. rewrite Eg, Hgo in Ht. discriminate. }
+    split; [apply M4|]. intros a nd Hres. cbn [fst snd] in *. inversion Hres; subst a nd. split; [|split].
+    + intros dd' Hw'. rewrite Hw in Hw'. inversion Hw'; subst dd'. apply B3.
+      destruct Hbn3 as [E|E]; rewrite E; congruence.
+    + intros Hs. apply safe_snoc; [apply M4|]. intros dd' i' Hw' Hb'.
+      rewrite (mid_walk f4 M4), Hw in Hw'. inversion Hw'; subst dd'. rewrite B2 in Hb'. inversion Hb'; subst i'.
+      destruct (Hmk (Hsol Hs)) as (_ & _ & Hl3).
+      rewrite (islink_next f3 f4 (T2 dd tmp bn) dd tmp i M3 S4 Hw Hbl3), Hl13. apply Hl3. exact Hs.
+    + intros Ha. exists dd, i. repeat split; auto. apply Hreg. destruct mk; try discriminate; reflexivity.
+Qed.
+
+
+Definition post2 (kind : N) (r : fs * dwres) : Prop :=
+  step Tp b f (fst r) /\
+  forall a nd, snd r = DwOk a nd ->
+    tmpfree (fst r)
+    /\ (kind <> 2 -> solid st = true -> safe (fst r) D (pre ++ [bn]))
+    /\ (a = true -> exists dd i, rwalk f D pre = Some dd /\ blookup bn (ents (fst r) dd) = Some i /\ b <= i).
+
+Lemma post_post2 kind r : post r -> post2 kind r.
+Proof.
+  intros [S P]. split; auto. intros a nd H. destruct (P a nd H) as (A & B & C). repeat split; auto.
+Qed.
+
+Lemma post2_err kind : post2 kind (f, DwErr).
+Proof. apply post_post2. apply post_err. apply step_refl; auto. unfold b. lia. Qed.
+
+Theorem dw_handle_spec kind : post2 kind (dw_handle c f tmp kind p st).
+Proof.
+  unfold dw_handle. destruct (N.eqb kind 2) eqn:Ek.
+  - destruct dw_delete_spec as [S F]. destruct (sys_remove_all c f p) as [f1 r]. cbn [fst] in *.
+    split; auto. intros a nd H. cbn [fst snd] in *. destruct (is_err r); [discriminate|]. inversion H; subst.
+    split; [exact F|]. split; [intros Hk; apply N.eqb_eq in Ek; congruence|discriminate].
+  - destruct (sys_lstat c f p) as [f0 rl] eqn:El.
+    assert (Esnd : snd (sys_lstat c f p) = rl) by (rewrite El; reflexivity).
+    destruct rl as [|e|oi ond| | |]; try apply post2_err.
+    + destruct e; try apply post2_err.
+      destruct (negb (N.eqb kind 0)); [apply post2_err|].
+      apply post_post2. exact (dw_direct_spec Esnd).
+    + destruct (lstat_stat D c f p pre bn Hc Hp Hsafe oi ond Esnd) as (dd & Hw & Hd & Hbl & Hg).
+      destruct (mode_is_dir (st_mode st) && match i_kind ond with KDir _ _ => true | _ => false end) eqn:Einp.
+      * apply andb_true_iff in Einp. destruct Einp as [_ Eold].
+        assert (Hdo : is_dir f oi = true).
+        { unfold is_dir, dir_of. rewrite Hg. destruct ond as [k m]. simpl in Eold. destruct k; try discriminate. reflexivity. }
+        destruct (dw_inplace_spec dd oi Hw Hbl Hdo) as (S & F & Sf).
+        destruct (rewrite_meta c f p st) as [f1 ok]. cbn [fst] in *.
+        split; auto. intros a nd H. cbn [fst snd] in *. destruct ok; [|discriminate]. inversion H; subst.
+        split; [exact F|]. split; [intros _ _; exact Sf|discriminate].
+      * apply post_post2.
+        exact (dw_replace_spec dd oi ond
+                 (negb (Bool.eqb (match i_kind ond with KDir _ _ => true | _ => false end) (mode_is_dir (st_mode st))))
+                 (mode_is_dir (st_mode st)) Hw Hd Hbl Hg).
+Qed.
+
 End Handle.
 
 End Dw.
